@@ -93,8 +93,11 @@ def _worker(pid, tier, task_q, res_q, chunk, qtimeout):
                         c['unknown'] += 1
                 if first and rec['status'] == 'done':
                     first = False
-                    r, _ = E._check()
-                    out['twin'] = (r == 'sat')      # `assert False` at the end would be violated
+                    if E.model is not None:
+                        out['twin'] = True          # a model of the path condition is at hand
+                    else:
+                        r, _ = E._check()
+                        out['twin'] = (r == 'sat')  # `assert False` at the end would be violated
                     try:
                         w = E.witness()
                     except Exception:
